@@ -7,8 +7,18 @@
 -/
 import Proofs.Frame
 import Proofs.FlatComplete
+import Proofs.Kept
 
 namespace Measured
+
+/-! ## C01 / C02 — the interning invariants in histories with queries -/
+
+/-- after any valid history of conversions, comparisons, arithmetic and unit operations the unit table is canonical
+    (C02) and every unit's dimension is the product of its factors' dimensions (C01) -/
+alias C01.invariants_survive_every_query_history := queries_good
+alias C02.canonical_after_every_query_history := queries_good
+/-- one conversion between existing units, returning or raising -/
+alias C01.conversion_keeps_invariants := good_convert
 
 /-! ## C04 / C05 — values -/
 
